@@ -10,7 +10,8 @@ RULE = ('lines, quadratics, cubics (cusps, loops, near-straight with |d2|^2 next
         'to the returned parameter within 8 a * (peak/mean speed) of the request, non-decreasing for requests that far apart. Implementation compared with '
         'the Float instantiation of the Lean model (1e-9 relative). The 15 Gauss-Legendre tables are re-extracted from common.rs on every run and proved '
         'equal to the pinned tables, whose exactness (degree 2n-1, to 1e-13) is a theorem. non-trivial = distinct (segment, accuracy)')
-KERNEL_DEPS = [r'GL:.*', r'Line\.(arclen|inv_arclen|eval|subsegment)', r'(QuadBez|CubicBez)\.(subsegment|subdivide|eval)', r'Vec2\.(hypot|hypot2|dot)']
+KERNEL_DEPS = [r'GL:.*', r'Line\.(arclen|inv_arclen|eval|subsegment)', r'(QuadBez|CubicBez)\.(subsegment|subdivide|eval)', r'Vec2\.(hypot|hypot2|dot)',
+               r'K2:QuadBez\.arclen']
 UNPROVED = ['the accuracy claim for cubics: the subdivision decision uses an error ESTIMATE with fitted constants (2.5e-6, 1.5e-11, 3.5e-16): no theorem exists to transcribe',
             'accuracy/monotonicity of inv_arclen (decided by the oracle)']
 ASSUMPTIONS = ['GL tables: exactness proved for the rational values of the printed decimals']
